@@ -45,8 +45,10 @@ Qed.
 (* ================================================================== _get_dst_indices on clock patterns *)
 
 (* a day of the frame shows the clock pattern k, has a usage value on every row, and its date label resolves *)
-Definition realises (d : day) (k : daykind) : Prop :=
-  hours d = clock_hours k /\ forallb hs_obs (d_rows d) = true /\ d_loc d = None.
+Definition realises (pol : policy) (d : day) (k : daykind) : Prop :=
+  hours d = clock_hours k
+  /\ (count_rows pol = false -> forallb hs_obs (d_rows d) = true)
+  /\ (loc_by_mask pol = false -> d_loc d = None).
 
 Definition rows_expected (k : daykind) : nat := match k with Reg => 24 | Short _ => 23 | Long _ => 25 end.
 
@@ -58,10 +60,17 @@ Proof.
   - apply Nat.ltb_lt in H. rewrite app_length, !seq_length. lia.
 Qed.
 
-Lemma count_obs_realises : forall d k, realises d k -> kind_ok k = true -> count_obs d = rows_expected k.
+Lemma count_obs_realises : forall pol d k, realises pol d k -> kind_ok k = true -> day_count pol d = rows_expected k.
 Proof.
-  intros d k (Hh & Ho & _) Hk. unfold count_obs. rewrite (filter_all _ _ _ Ho).
-  rewrite <- (clock_hours_length k Hk), <- Hh. unfold hours. rewrite map_length. reflexivity.
+  intros pol d k (Hh & Ho & _) Hk. unfold day_count, count_obs.
+  assert (E : length (d_rows d) = rows_expected k).
+  { rewrite <- (clock_hours_length k Hk), <- Hh. unfold hours. rewrite map_length. reflexivity. }
+  destruct (count_rows pol); [exact E|]. rewrite (filter_all _ _ _ (Ho eq_refl)). exact E.
+Qed.
+
+Lemma day_loc_realises : forall pol d k, realises pol d k -> day_loc pol d = None.
+Proof.
+  intros pol d k (_ & _ & Hl). unfold day_loc. destruct (loc_by_mask pol); [reflexivity | apply Hl; reflexivity].
 Qed.
 
 Lemma missing_short : forall h, h < 24 -> missing_of (clock_hours (Short h)) = [h].
@@ -74,43 +83,43 @@ Proof.
   intros h H. do 24 (destruct h as [|h]; [vm_compute; reflexivity|]). exfalso. lia.
 Qed.
 
-Lemma interp_loop_valid : forall days pat, Forall2 realises days pat -> forallb kind_ok pat = true ->
-  forall i last, exists last', interp_loop i days last = Ok (interp_of i pat, last').
+Lemma interp_loop_valid : forall pol days pat, Forall2 (realises pol) days pat -> forallb kind_ok pat = true ->
+  forall i last, exists last', interp_loop pol i days last = Ok (interp_of i pat, last').
 Proof.
-  intros days pat H. induction H as [|d k days pat Hd Hr IH]; intros Hk i last.
+  intros pol days pat H. induction H as [|d k days pat Hd Hr IH]; intros Hk i last.
   - exists last. reflexivity.
   - cbn [forallb] in Hk. apply andb_true_iff in Hk. destruct Hk as [Hk Hp].
-    cbn [interp_loop]. rewrite (count_obs_realises d k Hd Hk).
+    cbn [interp_loop]. rewrite (count_obs_realises pol d k Hd Hk).
     destruct k as [|h|h]; cbn [rows_expected interp_of].
     + change (24 =? 23) with false. cbv iota. apply IH. exact Hp.
-    + change (23 =? 23) with true. cbv iota. destruct Hd as (Hh & _ & Hl). rewrite Hl.
+    + change (23 =? 23) with true. cbv iota. rewrite (day_loc_realises pol d _ Hd). destruct Hd as (Hh & _ & Hl).
       unfold missing_hours. rewrite Hh. cbn [kind_ok] in Hk. apply Nat.ltb_lt in Hk.
       rewrite (missing_short h Hk).
       destruct (IH Hp (S i) (Some h)) as [last' E]. rewrite E. exists last'. reflexivity.
     + change (25 =? 23) with false. cbv iota. apply IH. exact Hp.
 Qed.
 
-Lemma mean_loop_valid : forall days pat, Forall2 realises days pat -> forallb kind_ok pat = true ->
-  forall i last, mean_loop i days last = Ok (mean_of i pat).
+Lemma mean_loop_valid : forall pol days pat, Forall2 (realises pol) days pat -> forallb kind_ok pat = true ->
+  forall i last, mean_loop pol i days last = Ok (mean_of i pat).
 Proof.
-  intros days pat H. induction H as [|d k days pat Hd Hr IH]; intros Hk i last.
+  intros pol days pat H. induction H as [|d k days pat Hd Hr IH]; intros Hk i last.
   - reflexivity.
   - cbn [forallb] in Hk. apply andb_true_iff in Hk. destruct Hk as [Hk Hp].
-    cbn [mean_loop]. rewrite (count_obs_realises d k Hd Hk).
+    cbn [mean_loop]. rewrite (count_obs_realises pol d k Hd Hk).
     destruct k as [|h|h]; cbn [rows_expected mean_of].
     + change (24 =? 25) with false. cbv iota. apply IH. exact Hp.
     + change (23 =? 25) with false. cbv iota. apply IH. exact Hp.
-    + change (25 =? 25) with true. cbv iota. destruct Hd as (Hh & _ & Hl). rewrite Hl.
+    + change (25 =? 25) with true. cbv iota. rewrite (day_loc_realises pol d _ Hd). destruct Hd as (Hh & _ & Hl).
       rewrite Hh. cbn [kind_ok] in Hk. apply Nat.ltb_lt in Hk. rewrite (first_repeat_long h Hk).
       rewrite (IH Hp (S i) (Some h)). reflexivity.
 Qed.
 
-Lemma get_dst_indices_valid_l : forall days pat, Forall2 realises days pat -> forallb kind_ok pat = true ->
-  get_dst_indices days = Ok (indices_of pat).
+Lemma get_dst_indices_valid_l : forall pol days pat, Forall2 (realises pol) days pat -> forallb kind_ok pat = true ->
+  get_dst_indices pol days = Ok (indices_of pat).
 Proof.
-  intros days pat H Hk. unfold get_dst_indices, indices_of.
-  destruct (interp_loop_valid days pat H Hk 0 None) as [last' E]. rewrite E. cbn [bind].
-  rewrite (mean_loop_valid days pat H Hk 0 last'). reflexivity.
+  intros pol days pat H Hk. unfold get_dst_indices, indices_of.
+  destruct (interp_loop_valid pol days pat H Hk 0 None) as [last' E]. rewrite E. cbn [bind].
+  rewrite (mean_loop_valid pol days pat H Hk 0 last'). reflexivity.
 Qed.
 
 Lemma pattern_ok_kind_ok : forall pat, pattern_ok pat = true -> forallb kind_ok pat = true.
@@ -806,22 +815,22 @@ Section HourlyPredict.
     length lb = length la /\ length lc = length la.
   Proof. intros A B C R la lb lc H. induction H; cbn [length]; [split; reflexivity | lia]. Qed.
 
-  Lemma index_length : forall days pat, Forall2 realises days pat -> length (index_of days) = total_rows pat.
+  Lemma index_length : forall pol days pat, Forall2 (realises pol) days pat -> length (index_of days) = total_rows pat.
   Proof.
-    intros days pat H. unfold index_of, rows_of, total_rows. rewrite map_length.
+    intros pol days pat H. unfold index_of, rows_of, total_rows. rewrite map_length.
     induction H as [|d k days pat Hd _ IH]; [reflexivity|].
     cbn [map concat]. rewrite !app_length, IH. f_equal.
     destruct Hd as (Hh & _ & _). rewrite <- Hh. unfold hours. rewrite map_length. reflexivity.
   Qed.
 
-  Lemma hourly_predict_valid : forall days pat, Forall2 realises days pat -> pattern_ok pat = true ->
+  Lemma hourly_predict_valid : forall pol days pat, Forall2 (realises pol) days pat -> pattern_ok pat = true ->
     StronglySorted Z.lt (index_of days) ->
-    exists agg y, hourly_predict mean2 feat regress days = Ok (combine (index_of days) (map Some y))
+    exists agg y, hourly_predict mean2 feat regress pol days = Ok (combine (index_of days) (map Some y))
                   /\ length y = length (index_of days)
                   /\ rel3 day_fix pat (map (fun d => map feat (d_rows d)) days) agg
                   /\ by_day mean2 pat (regress agg) = Some y.
   Proof.
-    intros days pat Hr Hok Hs.
+    intros pol days pat Hr Hok Hs.
     assert (Hk := pattern_ok_kind_ok _ Hok).
     assert (Hshape : Forall2 (fun k f => length f = rows_expected k) pat (map (fun d => map feat (d_rows d)) days)).
     { clear Hs Hok. induction Hr as [|d k days pat Hd _ IH]; [constructor|].
@@ -834,10 +843,10 @@ Section HourlyPredict.
     destruct (transform_dst_pattern mean2 pat (regress agg) Hok ltac:(rewrite regress_length, Hla; reflexivity))
       as (y & Et & Eb & _).
     assert (Hy : length y = length (index_of days)).
-    { rewrite (index_length days pat Hr). apply (by_day_length mean2 pat (regress agg)); try assumption.
+    { rewrite (index_length pol days pat Hr). apply (by_day_length mean2 pat (regress agg)); try assumption.
       rewrite regress_length, Hla. reflexivity. }
     exists agg, y. split; [|split; [exact Hy | split; assumption]].
-    unfold hourly_predict. rewrite (get_dst_indices_valid_l days pat Hr Hk). cbn [bind].
+    unfold hourly_predict. rewrite (get_dst_indices_valid_l pol days pat Hr Hk). cbn [bind].
     rewrite Ef. cbn [bind]. rewrite H24. cbn [negb]. rewrite Et. cbn [bind].
     rewrite Hy, Nat.eqb_refl. cbn [negb]. apply reindex_same; assumption.
   Qed.
@@ -1100,3 +1109,31 @@ Section Derived.
     rewrite L, slices_slices2. reflexivity.
   Qed.
 End Derived.
+
+(* ================================================================== after the repairs of D11 and D18 *)
+Definition clock_only (d : day) (k : daykind) : Prop := hours d = clock_hours k.
+
+Lemma clock_only_realises_repaired : forall days pat, Forall2 clock_only days pat -> Forall2 (realises repaired) days pat.
+Proof.
+  intros days pat H. induction H as [|d k days pat Hd _ IH]; constructor; [|exact IH].
+  split; [exact Hd|]. split; intros E; discriminate E.
+Qed.
+
+Section HourlyRepaired.
+  Context {V : Type}.
+  Variable mean2 : V -> V -> V.
+  Variable feat : hour_stamp -> V.
+  Variable regress : list (list V) -> list V.
+  Hypothesis regress_length : forall agg, length (regress agg) = 24 * length agg.
+
+  Lemma hourly_predict_repaired : forall days pat, Forall2 clock_only days pat -> pattern_ok pat = true ->
+    StronglySorted Z.lt (index_of days) ->
+    exists agg y, hourly_predict mean2 feat regress repaired days = Ok (combine (index_of days) (map Some y))
+                  /\ length y = length (index_of days)
+                  /\ rel3 day_fix pat (map (fun d => map feat (d_rows d)) days) agg
+                  /\ by_day mean2 pat (regress agg) = Some y.
+  Proof.
+    intros days pat H. apply (hourly_predict_valid mean2 feat regress regress_length repaired).
+    apply clock_only_realises_repaired. exact H.
+  Qed.
+End HourlyRepaired.
